@@ -334,13 +334,18 @@ func c13Build(args []string) ([]string, error) {
 		path := f.Name()
 		f.Close()
 		defer os.Remove(path)
+		// HISTORY on one path: a LONGER list is written there first, then the list under test; the file must
+		// then hold exactly Build's bytes (a writer that does not truncate leaves the old tail) and read back
+		// as the list
+		longer := append(append(c13OtherList(fs), c13OtherList(fs)...), fs...)
+		fasta.Write(longer, path)
 		fasta.Write(fs, path)
 		written, err := os.ReadFile(path)
 		if err != nil {
 			return nil, err
 		}
 		if !bytes.Equal(written, text) {
-			return nil, fmt.Errorf("Write wrote something else than Build")
+			return nil, fmt.Errorf("after Write the file holds %d bytes that are not Build's %d bytes (written over a longer file)", len(written), len(text))
 		}
 		if args[0] == "file" {
 			got = fasta.Read(path)
@@ -360,7 +365,7 @@ func c13Build(args []string) ([]string, error) {
 	return append([]string{string(text), stable}, c13Recs(got)...), nil
 }
 
-// c13.stream src cap seed stallPermille text -> closedOnce n name seq ...   (src: mem | file | gz | gz2)
+// c13.stream src cap seed stallPermille text -> closedOnce n name seq ...   (src: mem | pipe | file | gz | gz2 | gzhist)
 // src mem: ParseConcurrent on a reader in a goroutine of ours (a panic of the producer — send on or close of
 // a closed channel — is caught and reported); file / gz: ReadConcurrent / ReadGzConcurrent on a temp file.
 // The consumer receives with `v, ok := <-ch`, stalling at random (yield, sleep, spin) before receives; after
@@ -379,6 +384,7 @@ func c13Stream(args []string) ([]string, error) {
 	ch := make(chan fasta.Fasta, capacity)
 	done := make(chan interface{}, 1)
 	var tmpFiles []string
+	var gzHistory func() error
 	// ANOTHER streaming parser runs in the same process while the judged one does, on another text and
 	// another channel, drained by its own consumer; its records are checked at the end
 	otherCh := make(chan fasta.Fasta, capacity%3)
@@ -426,6 +432,53 @@ func c13Stream(args []string) ([]string, error) {
 			defer func() { done <- recover() }()
 			fasta.ParseConcurrent(pr, ch)
 		}()
+	case "gzhist":
+		// HISTORY of gzip reads: ReadGzConcurrent on file A (the text under test) is started and a few records
+		// are consumed; THEN file B is read with ReadGz and with another ReadGzConcurrent, completely; then the
+		// rest of A is consumed. Both results are judged (B by the harness, A by the judge).
+		pathA, err := c13TempFile([]byte(text), 1)
+		if pathA != "" {
+			defer os.Remove(pathA)
+			tmpFiles = append(tmpFiles, pathA)
+		}
+		if err != nil {
+			return nil, err
+		}
+		pathB, err := c13TempFile([]byte(c13OtherText), 1)
+		if pathB != "" {
+			defer os.Remove(pathB)
+			tmpFiles = append(tmpFiles, pathB)
+		}
+		if err != nil {
+			return nil, err
+		}
+		fasta.ReadGzConcurrent(pathA, ch)
+		done <- nil
+		gzHistory = func() error {
+			if b := fasta.ReadGz(pathB); !c13SameRecs(b, c13OtherWant) {
+				return fmt.Errorf("ReadGz of a second file while the first stream was unread returned wrong records (%d records)", len(b))
+			}
+			chB := make(chan fasta.Fasta, 1)
+			fasta.ReadGzConcurrent(pathB, chB)
+			var b []fasta.Fasta
+			to := time.After(ioDeadline(20000))
+			for open := true; open; {
+				select {
+				case f, ok := <-chB:
+					if !ok {
+						open = false
+					} else {
+						b = append(b, f)
+					}
+				case <-to:
+					ioBlocked(tmpFiles, "ReadGzConcurrent of a second file did not finish")
+				}
+			}
+			if !c13SameRecs(b, c13OtherWant) {
+				return fmt.Errorf("ReadGzConcurrent of a second file while the first stream was unread delivered wrong records (%d records)", len(b))
+			}
+			return nil
+		}
 	case "file", "gz", "gz2":
 		path, err := c13TempFile([]byte(text), c13GzKind(args[0]))
 		if path != "" {
@@ -488,6 +541,12 @@ recvLoop:
 				break recvLoop
 			}
 			got = append(got, f)
+			if gzHistory != nil && len(got) == 3 {
+				if err := gzHistory(); err != nil {
+					return nil, err
+				}
+				gzHistory = nil
+			}
 		case p := <-doneCh:
 			// the producer goroutine ended (file / gz sources: nothing to watch): a panic is reported at once
 			doneCh, producerDone = nil, true
@@ -496,6 +555,11 @@ recvLoop:
 			}
 		case <-deadline:
 			ioBlocked(tmpFiles, "channel neither fed nor closed within the deadline", "received="+strconv.Itoa(len(got)))
+		}
+	}
+	if gzHistory != nil { // fewer than three records: the second file is read after the first
+		if err := gzHistory(); err != nil {
+			return nil, err
 		}
 	}
 	select {
